@@ -527,4 +527,108 @@ example : Real.cos (pradians (node_anomaly 30 true) / 2) ≠ 0 := by
   rw [hc, neg_ne_zero]
   apply (Real.cos_pos_of_mem_Ioo ⟨?_, ?_⟩).ne' <;> unfold pradians <;> nlinarith [Real.pi_pos]
 
+/-! ## Domain guards, exact values, constants (growth round) -/
+
+/-- `kepler_equation` is defined exactly on the elliptic range of the property: it raises `ValueError` for EVERY
+    eccentricity `e ≥ 1` (the value 1 itself included, whatever the anomaly), and returns a pair for every
+    `0 ≤ e < 1` (`kepler_residual`). -/
+theorem kepler_rejects_non_elliptic {e : ℝ} (he : 1 ≤ e) (M : ℝ) : kepler_equation e M = .error .valueError := by
+  have h : ple (1.0 : ℝ) e = true := by unfold ple; rw [decide_eq_true_iff]; norm_num; exact he
+  unfold kepler_equation
+  simp only [h, if_true]
+
+/-- `velocity(r, a)` raises `ValueError` whenever `r ≤ 0` or `a ≤ 0` (boundary values included) and returns
+    `42.1218 sqrt(1/r − 1/(2a))` for positive arguments inside the orbit (`r ≤ 2a`). -/
+theorem velocity_domain (r a : ℝ) :
+    (r ≤ 0 ∨ a ≤ 0 → velocity r a = .error .valueError) ∧
+    (0 < r → 0 < a → r ≤ 2 * a → velocity r a = .ok (42.1218 * Real.sqrt (1 / r - 1 / (2 * a)))) := by
+  constructor
+  · intro h
+    have hg : (ple r (0.0 : ℝ) || ple a (0.0 : ℝ)) = true := by
+      unfold ple; rcases h with h | h
+      · rw [Bool.or_eq_true]; left; rw [decide_eq_true_iff]; norm_num; exact h
+      · rw [Bool.or_eq_true]; right; rw [decide_eq_true_iff]; norm_num; exact h
+    unfold velocity
+    simp only [hg, if_true]
+  · intro hr ha hra
+    apply velocity_eq hr ha
+    rw [sub_nonneg, div_le_div_iff₀ (by positivity) hr]; linarith
+
+/-- Exact value of `length_orbit` on the branch below the switch, at `e = 0.6` (`b = 0.8 a`): all three coefficients
+    of Meeus' formula `π (21 A − 2 G − 3 H)/8` appear with their means `A = 0.9a`, `G = a sqrt(0.8)`, `H = 1.6a/1.8`
+    (a swap of the coefficients of `G` and `H`, which keeps every bound of `length_orbit_bounds`, changes this value). -/
+theorem length_orbit_at_0_6 {a : ℝ} (ha : 0 < a) :
+    length_orbit 0.6 a = .ok (π * a * (21 * 0.9 - 2 * Real.sqrt 0.8 - 3 * (1.6 / 1.8)) / 8) ∧
+    21 * 0.9 - 2 * Real.sqrt 0.8 - 3 * (1.6 / 1.8) ≠ 21 * 0.9 - 3 * Real.sqrt 0.8 - 2 * (1.6 / 1.8) := by
+  have hs : Real.sqrt (1 - 0.6 * 0.6) = 0.8 := by
+    rw [show (1 - 0.6 * 0.6 : ℝ) = 0.8 ^ 2 by norm_num, Real.sqrt_sq (by norm_num)]
+  have hG : Real.sqrt (a * (a * 0.8)) = a * Real.sqrt 0.8 := by
+    rw [← mul_assoc, Real.sqrt_mul (by positivity), Real.sqrt_mul_self ha.le]
+  constructor
+  · rw [length_orbit_eq (by norm_num), if_pos (by norm_num), hs, length_low_eq ha (by positivity), hG]
+    congr 1
+    have : a ≠ 0 := ha.ne'
+    field_simp
+    ring
+  · -- sqrt 0.8 ≠ 1.6/1.8
+    intro h
+    have h1 : Real.sqrt 0.8 = 1.6 / 1.8 := by linarith
+    have h2 := Real.sq_sqrt (show (0:ℝ) ≤ 0.8 by norm_num)
+    rw [h1] at h2
+    norm_num at h2
+
+/-- The mean-motion constant of `passage_nodes_elliptic`, 0.9856076686 degrees/day (see `node_passage_elliptic`), is
+    the Gaussian gravitational constant `k = 0.01720209895` rad/day expressed in degrees, to 1e-10 (a one-digit slip
+    in the 5th decimal would be 1e-5 off). -/
+theorem mean_motion_is_gauss_constant : |(0.9856076686 : ℝ) - 0.01720209895 * (180 / π)| < 1e-10 := by
+  have h1 := Real.pi_gt_d20
+  have h2 := Real.pi_lt_d20
+  have hpi := Real.pi_pos
+  have e : (0.01720209895 : ℝ) * (180 / π) = 0.01720209895 * 180 / π := by ring
+  have hlo : (0.9856076686 - 1e-10 : ℝ) < 0.01720209895 * 180 / π := by
+    rw [lt_div_iff₀ hpi]; norm_num at h1 h2 ⊢; nlinarith
+  have hhi : (0.01720209895 * 180 / π : ℝ) < 0.9856076686 + 1e-10 := by
+    rw [div_lt_iff₀ hpi]; norm_num at h1 h2 ⊢; nlinarith
+  rw [abs_lt, e]
+  constructor <;> linarith
+
+/-- The true anomaly of the node as the Angle arithmetic `360.0 - omega` / `180.0 - omega` delivers it, for every
+    argument of perihelion in `[0°, 360°)`: `360 − ω ∈ (0°, 360°)` at the ascending node (0 for ω = 0), and `180 − ω`
+    at the descending node, which is NEGATIVE (down to −180°) for every `ω > 180°`.  Both signs and values above 180°
+    occur, and `node_passage_elliptic` holds for all of them (a sign recovered from a test `v > 180` would not). -/
+theorem node_anomaly_values {ω : ℝ} (h0 : 0 ≤ ω) (h1 : ω < 360) :
+    node_anomaly ω false = 180 - ω ∧ node_anomaly ω true = (if ω = 0 then 0 else 360 - ω) := by
+  unfold node_anomaly angle_rsub angle_neg angle_sub angle_add
+  constructor
+  · simp only [Bool.false_eq_true, if_false]
+    have e : ω + -(180.0 : ℝ) = ω - 180 := by norm_num; ring
+    have hin : reduce_deg (ω - 180) = ω - 180 := reduce_deg_small (by rw [abs_lt]; constructor <;> linarith)
+    rw [e, hin, reduce_deg_small (by rw [abs_lt]; constructor <;> linarith)]
+    ring
+  · simp only [if_true]
+    have e : ω + -(360.0 : ℝ) = ω - 360 := by norm_num; ring
+    rw [e]
+    by_cases hz : ω = 0
+    · rw [if_pos hz, hz, zero_sub]
+      -- reduce_deg (-360) = -(0 + 0) = 0
+      have hr : reduce_deg (-360 : ℝ) = 0 := by
+        obtain ⟨j, hj⟩ := reduce_deg_congr (-360 : ℝ)
+        have h360 : ple (360.0 : ℝ) (pabs (-360)) = true := by
+          unfold ple pabs; rw [decide_eq_true_iff]; norm_num
+        unfold reduce_deg
+        simp only [h360, if_true]
+        have hneg : ple (0 : ℝ) (-360) = false := by unfold ple; rw [decide_eq_false_iff_not]; norm_num
+        simp only [hneg, Bool.false_eq_true, if_false, pabs, pmod, ptrunc, imod, ofInt]
+        norm_num
+      rw [hr, neg_zero, reduce_deg_small (by norm_num)]
+    · rw [if_neg hz]
+      have hpos : 0 < ω := lt_of_le_of_ne h0 (Ne.symm hz)
+      have hin : reduce_deg (ω - 360) = ω - 360 := reduce_deg_small (by rw [abs_lt]; constructor <;> linarith)
+      rw [hin, reduce_deg_small (by rw [abs_lt]; constructor <;> linarith)]
+      ring
+
+example : node_anomaly 270 false = -90 := by
+  have := (node_anomaly_values (ω := 270) (by norm_num) (by norm_num)).1
+  rw [this]; norm_num
+
 end Pymeeus.C11
